@@ -9,7 +9,7 @@ Rat: exact rational field (fractions.Fraction), star(x) = 1/(1-x).
 from fractions import Fraction
 
 from common import REPO  # noqa: F401  (puts /repo on sys.path)
-from genlm.grammar.semiring import Semiring, Boolean, Float, MaxTimes, MaxPlus, Real, Expectation  # noqa: F401
+from genlm.grammar.semiring import Semiring, Boolean, Float, MaxTimes, MaxPlus, Real, Expectation, Log  # noqa: F401
 
 _sat_cache = {}
 
@@ -133,7 +133,7 @@ def sr_name(R):
         return "Sat2"
     if R is Sat3:
         return "Sat3"
-    if R is Rat or R is Float or R is Real:
+    if R is Rat or R is Float or R is Real or R is Log:      # Log: the real number exp(score)
         return "Rat"
     if R is MaxTimes:
         return "MaxTimes"
@@ -152,4 +152,7 @@ def mk(R, x):
         return Boolean(bool(x))
     if R is BM2:
         return x if isinstance(x, BM2) else BM2(x)
+    if R is Log:
+        import math
+        return Log(math.log(x)) if x > 0 else Log(-math.inf)
     return R(x)
